@@ -4,7 +4,8 @@
    one event (Acq/Rel R|W, Rd/Wr Hdr|Entries, CallUser) of one thread; how often a repeated part runs and what a write does
    are chosen by the schedule entry, so "for all schedules" covers every data-dependent control flow and every effect. *)
 From Coq Require Import List ZArith Bool Permutation.
-From V Require Import Lib.Enc Gen.SafeKVSkel Model.SafeKV Model.SafeKVCalls Run.C12 Proofs.SafeKVCalls Proofs.SafeKVInv Proofs.SafeKVConc Proofs.SafeKVSeq Proofs.SafeKVSkelOk Proofs.SafeKVExec Proofs.SafeKVRun Proofs.SafeKVLin.
+From V Require Import Lib.Enc Gen.SafeKVSkel Model.SafeKV Model.SafeKVCalls Model.SafeKVHist Run.C12 Proofs.SafeKVCalls Proofs.SafeKVInv Proofs.SafeKVConc Proofs.SafeKVSeq Proofs.SafeKVSkelOk Proofs.SafeKVExec Proofs.SafeKVRun Proofs.SafeKVLin
+  Proofs.SafeKVLinearize Proofs.SafeKVLinearizeThm Proofs.SafeKVLinearizeCor Proofs.SafeKVLinearizeSnap Proofs.SafeKVLinearizeRun Proofs.SafeKVLinearizeLog.
 Import ListNotations.
 
 (* the skeletons extracted from the current mapz/safekv.go and mapz/iter.go obey the lock discipline (all of them, also
@@ -89,3 +90,126 @@ Print Assumptions c12_calls_race_free.
 Theorem c12_history_judge_iff : forall hist m0, linearizable hist m0 = true <-> exists l, Permutation l hist /\ legal l m0.
 Proof. exact linearizable_iff. Qed.
 Print Assumptions c12_history_judge_iff.
+
+(* ================================================================== linearizability, in one piece
+   The history of a run of the call-driven machine (Model/SafeKVHist.v): steps of the schedule are numbered from 0; the step on
+   which an idle thread starts a call is its invocation, the step on which it goes back to idle is its response; [chistory] is
+   the list of completed calls (invocation step, response step, call, result), [cpending] the calls invoked and not returned
+   at the end.  A schedule entry (i, c) says "thread i moves; if it is idle it starts c", so quantifying over schedules
+   quantifies over all per-thread programs, all argument values and all interleavings.
+
+   For every thread count, initial map and schedule there is ONE total order l of the completed calls (together with a
+   completion of pending calls: some are given a response at the end of the run, the others dropped) that
+   (a) respects real time: a call that had returned before another was invoked stands before it, and
+   (b) is a legal sequential execution of the plain-map specification [sem] from the initial map, every call returning
+       exactly the result that was observed. *)
+Theorem c12_linearizable : forall n m0 sched,
+  exists extra l,
+    completion (Z.of_nat (length sched)) (cpending n m0 sched) extra /\
+    Permutation l (chistory n m0 sched ++ extra) /\
+    (forall a b, In a l -> In b l -> (h_resp a < h_inv b)%Z -> before l a b) /\
+    seq_legal l m0.
+Proof. exact crun_linearizable. Qed.
+Print Assumptions c12_linearizable.
+
+(* when no call is pending at the end (every thread idle: the histories the harness records), it is the history itself *)
+Theorem c12_linearizable_quiescent : forall n m0 sched, cpending n m0 sched = [] ->
+  exists l,
+    Permutation l (chistory n m0 sched) /\
+    (forall a b, In a l -> In b l -> (h_resp a < h_inv b)%Z -> before l a b) /\
+    seq_legal l m0.
+Proof. exact crun_linearizable_quiescent. Qed.
+Print Assumptions c12_linearizable_quiescent.
+
+(* the same order in the judge's vocabulary ([legal], c12_history_judge_iff) *)
+Theorem c12_linearizable_legal : forall n m0 sched,
+  exists extra l, completion (Z.of_nat (length sched)) (cpending n m0 sched) extra /\
+                  Permutation l (chistory n m0 sched ++ extra) /\ legal l m0.
+Proof. exact crun_linearizable_legal. Qed.
+Print Assumptions c12_linearizable_legal.
+
+(* hence the executable judge that the run applies to the histories observed on the real SafeKV accepts every history of the
+   model: the model never produces a history the judge would report *)
+Theorem c12_model_histories_accepted : forall n m0 sched, cpending n m0 sched = [] ->
+  linearizable (chistory n m0 sched) m0 = true.
+Proof. exact model_histories_accepted_quiescent. Qed.
+Print Assumptions c12_model_histories_accepted.
+Theorem c12_model_histories_accepted_pending : forall n m0 sched,
+  exists extra, completion (Z.of_nat (length sched)) (cpending n m0 sched) extra /\
+                linearizable (chistory n m0 sched ++ extra) m0 = true.
+Proof. exact model_histories_accepted. Qed.
+Print Assumptions c12_model_histories_accepted_pending.
+(* ... at the level of the run (mode 1 of Run/C12.v starts from the empty map): a case that decodes to the history of a complete
+   run of the model is answered [1; number of calls] *)
+Theorem c12_entry_model_history_accepted : forall n sched nth args, cpending n [] sched = [] ->
+  dec_hist (length args) args = Some (chistory n [] sched) ->
+  entry 0 (1 :: nth :: args)%Z = [1%Z; Z.of_nat (length (chistory n [] sched))].
+Proof. exact entry_model_history_accepted. Qed.
+Print Assumptions c12_entry_model_history_accepted.
+
+(* the calls of a history are calls the schedule carries (so a premise on the schedule is a premise on the calls made) *)
+Theorem c12_history_calls_from_schedule : forall (P : call -> Prop) n m0 sched K extra,
+  Forall (fun sc => P (snd sc)) sched -> completion K (cpending n m0 sched) extra ->
+  Forall (fun hp => P (h_call hp)) (chistory n m0 sched ++ extra).
+Proof. exact history_calls. Qed.
+Print Assumptions c12_history_calls_from_schedule.
+
+(* the history is the machine's own log: its (call, result) pairs are, as a multiset, the (call, result) pairs of the threads'
+   ghost logs that c12_calls_atomic speaks about *)
+Theorem c12_history_is_the_log : forall n m0 sched,
+  Permutation (map (fun h => (h_call h, h_res h)) (chistory n m0 sched))
+              (flat_map (fun t => map (fun en : call * map_ * map_ * list Z => let '(cl, _, _, r) := en in (cl, r)) (clog t))
+                        (cths (crun (cinit n m0) sched))).
+Proof. exact history_is_the_log. Qed.
+Print Assumptions c12_history_is_the_log.
+
+(* corollaries on histories.  Exactly one of several concurrent SetNx on an absent key returns true: in a run from a map
+   without k whose calls are SetNx on k (any values) and calls that do not change whether k is present, every SetNx on k
+   reported true or false, at most one reported true, and exactly one did if there was any *)
+Theorem c12_history_setnx_unique : forall n m0 sched k, has m0 k = false ->
+  Forall (fun sc => is_setnx k (snd sc) = true \/ keeps_key k (snd sc)) sched -> cpending n m0 sched = [] ->
+  let H := chistory n m0 sched in
+  (forall h, In h H -> is_setnx k (h_call h) = true -> h_res h = [1%Z] \/ h_res h = [0%Z]) /\
+  length (filter (setnx_win k) H) <= 1 /\
+  ((exists h, In h H /\ is_setnx k (h_call h) = true) -> length (filter (setnx_win k) H) = 1).
+Proof. exact run_setnx_unique_quiescent. Qed.
+Print Assumptions c12_history_setnx_unique.
+(* ... and with calls still pending at the end: the same about the history plus the completed pending calls *)
+Theorem c12_history_setnx_unique_pending : forall n m0 sched k, has m0 k = false ->
+  Forall (fun sc => is_setnx k (snd sc) = true \/ keeps_key k (snd sc)) sched ->
+  exists extra, completion (Z.of_nat (length sched)) (cpending n m0 sched) extra /\
+    let H := chistory n m0 sched ++ extra in
+    (forall h, In h H -> is_setnx k (h_call h) = true -> h_res h = [1%Z] \/ h_res h = [0%Z]) /\
+    length (filter (setnx_win k) H) <= 1 /\
+    ((exists h, In h H /\ is_setnx k (h_call h) = true) -> length (filter (setnx_win k) H) = 1).
+Proof. exact run_setnx_unique. Qed.
+Print Assumptions c12_history_setnx_unique_pending.
+
+(* SetX never creates a key: in a run from a map without k whose calls are SetX (any key, any value) and calls that cannot
+   create k, every completed call saw a map without k *)
+Theorem c12_history_setx_never_creates : forall n m0 sched k, has m0 k = false ->
+  Forall (fun sc => (exists a v, snd sc = CSetX a v) \/ never_creates k (snd sc)) sched ->
+  forall h, In h (chistory n m0 sched) ->
+    (exists s, has s k = false /\ h_res h = snd (sem (h_call h) s)) /\
+    (h_call h = CHas k \/ h_call h = CContains k -> h_res h = [0%Z]) /\
+    (forall v, h_call h = CSetX k v -> h_res h = [0%Z]) /\
+    (h_call h = CGet k -> h_res h = [0%Z; 0%Z]) /\
+    (h_call h = CGetWithLock k -> h_res h = [0%Z]).
+Proof. exact run_setx_never_creates. Qed.
+Print Assumptions c12_history_setx_never_creates.
+
+(* one snapshot: every completed call of every run returned what the specification returns on the SHARED map as it was after
+   j steps of the schedule, for one j strictly between its invocation and its response; for Keys / Values / Range / All / Len /
+   Map the number of entries reported is the size of the map at that instant, GetWithMap reads every key from it *)
+Theorem c12_history_one_snapshot : forall n m0 sched h, In h (chistory n m0 sched) ->
+  exists j, (h_inv h < Z.of_nat j < h_resp h)%Z /\ j < length sched /\
+    let s := map_at n m0 sched j in
+    h_res h = snd (sem (h_call h) s) /\
+    (h_call h = CKeys -> h_res h = put_list (map fst s)) /\
+    (h_call h = CKeys \/ h_call h = CValues -> hd0 (h_res h) = Z.of_nat (length s)) /\
+    (h_call h = CRange 0 \/ h_call h = CAll 0 -> h_res h = put_list (flat s) /\ hd0 (h_res h) = Z.of_nat (2 * length s)) /\
+    (h_call h = CLen \/ (exists f a b, h_call h = CMap f a b) -> h_res h = [Z.of_nat (length s)]) /\
+    (forall ks, h_call h = CGetWithMap ks ->
+       h_res h = put_list (flat_map (fun k => [k; match get s k with Some v => v | None => (-1)%Z end]) (zdedup (zsort ks)))).
+Proof. exact run_one_snapshot. Qed.
+Print Assumptions c12_history_one_snapshot.
